@@ -182,11 +182,6 @@ pub fn check_program<G: Cv>(env: &Env<G>, prog: &Program, seed: u64) -> Out {
             }
         }
     }
-    // the RNG must be built after the commitments and their count were absorbed (transcript-bound)
-    let absorbed_before = mev.iter().filter(|e| e.at < built_at && !e.is_challenge).count();
-    if absorbed_before < 2 + m + 1 {
-        out.bad.push(("the RNG is built from the transcript after the commitments and their count are absorbed".into(), format!("only {} appends precede build_rng", absorbed_before)));
-    }
     // ---- draws
     let draws: Vec<G::ScalarField> = draws_from_fills(&fills.iter().map(|f| f.1.clone()).collect::<Vec<_>>());
     out.draws = draws.len();
@@ -214,6 +209,11 @@ pub fn check_program<G: Cv>(env: &Env<G>, prog: &Program, seed: u64) -> Out {
             return out;
         }
     };
+    // the RNG must be built after the commitments and their count were absorbed (transcript-bound)
+    let absorbed_before = mev.iter().filter(|e| e.at < built_at && !e.is_challenge).count();
+    if absorbed_before < 2 + m + 1 {
+        out.bad.push(("the RNG is built from the transcript after the commitments and their count are absorbed".into(), format!("only {} appends precede build_rng", absorbed_before)));
+    }
     let chal = |name: &str| scalar_from_challenge::<G::ScalarField>(matched.challenge(name).expect("challenge present"));
     let (y, z, u, x, _w) = (chal("y"), chal("z"), chal("u"), chal("x"), chal("w"));
     let us: Vec<G::ScalarField> = (0..parts.l.len()).map(|j| chal(&format!("u[{}]", j))).collect();
